@@ -105,6 +105,10 @@ def menu_calls(name, L):
     return c
 
 
+class Livelock(BaseException):
+    pass
+
+
 class World(object):
     """One task's configuration + the code that performs one API call."""
 
@@ -159,8 +163,12 @@ class World(object):
             answers.append(a)
             return a
 
+        max_reads = env[0] + 12
+
         def answer_(size, timeout):
             nreads[0] += 1
+            if nreads[0] > max_reads:
+                raise Livelock()
             if env[1]:
                 return EOF
             opts = list(self.chunks[min(2, env[0])])
@@ -214,7 +222,7 @@ class World(object):
                     ret = 'STOP'
                 sp.timeout = 5
             elif kind == 'setbuf':
-                if call[1] == 'cur+a':
+                if call[1] in ('cur+a', 'b'):
                     # injected text is charged to the stream budget (keeps the space finite)
                     if env[0] < 1:
                         return 'setbuf-skip', None
@@ -224,6 +232,9 @@ class World(object):
                 sp.buffer = x
                 env[2] = x
                 return 'setbuf', None
+        except Livelock:
+            sp.timeout = 5
+            return 'livelock', ('livelock', 'call %r performed more than %d reads without returning' % (call, max_reads))
         except TIMEOUT as e:
             exc = TIMEOUT
             if type(e) is not TIMEOUT:
@@ -366,6 +377,7 @@ def run_task(task, world_cls=None):
     acc = Acc()
     w = (world_cls or World)(task)
     init = (w.S(''), w.S(''), w.S(''), task['L'], False)
+    cap = task.get('cap', 400000)
     parent = {init: None}
     frontier = [init]
     depth = 0
@@ -393,7 +405,17 @@ def run_task(task, world_cls=None):
                         acc.violation(vkey(call, viol[0]), viol[1],
                                       {'task': task, 'history': hist})
                         continue
+                    if len(ns[0]) > task['L'] or len(ns[2]) > task['L']:
+                        hist = path_to(parent, st) + [(call, ch.choices())]
+                        acc.violation(vkey(call, 'pending-exceeds-received'),
+                                      'pending text %r is longer than everything the child ever wrote (%d)'
+                                      % (ns[0], task['L']), {'task': task, 'history': hist})
+                        continue
                     if ns not in parent:
+                        if len(parent) >= cap:
+                            if not acc.caps:
+                                acc.caps.append('state cap %d hit in task %r' % (cap, task))
+                            continue
                         parent[ns] = (st, call, ch.choices())
                         nxt.append(ns)
         # live-object conformance of every new state
@@ -442,6 +464,9 @@ def replay(spec, world_cls=None):
     out = {'observations': obs, 'violation': None}
     if viol:
         out['violation'] = {'key': vkey(hist[len(obs) - 1][0], viol[0]), 'msg': viol[1]}
+    elif len(sp._before.getvalue()) > spec['task']['L'] or len(env[2]) > spec['task']['L']:
+        out['violation'] = {'key': vkey(hist[-1][0], 'pending-exceeds-received'),
+                            'msg': 'pending %r' % (sp._before.getvalue(),)}
     elif 'expect_state' in spec:
         b, f = sp.snap()
         now = [b, f, env[2], env[0], env[1]]
